@@ -554,19 +554,27 @@ def sc123(P, C):
         raise core.AnalysisBroken("operator(): expected table + 2 evaluator instantiations, found %d" % len(ops))
     for g in ops:
         nm = ("evaluator<%s>" % re.findall(r"evaluator_type<(\w*)>", g.cls)[0] if "evaluator_type" in g.cls else "table") + "::operator()"
-        ifs = [i for i in g.walk() if g.k(i) == "IfStmt"]
         ok = False
         det = "no lookup test"
-        if ifs:
-            c, neg = core.cond_polarity(g, g.nodes[ifs[0]]["cond"])
-            cal = g.nodes[c].get("callee")
-            then = g.nodes[ifs[0]]["then"]
-            tr = [x for x in g.walk(then) if g.k(x) == "ReturnStmt"]
-            lit0 = bool(tr) and g.nodes[g.strip(g.nodes[tr[0]]["value"])].get("cv") == 0
-            ev = [x for x, cc in g.calls() if cc and cc["name"] == "ndsplineeval"]
-            after = bool(ev) and all(ifs[0] not in set(g.ancestors(x)) and g.ch(g.body).index(ifs[0]) < max(g.ch(g.body).index(a) for a in [x] + list(g.ancestors(x)) if a in g.ch(g.body)) for x in ev)
-            ok = bool(cal) and cal["name"] == "searchcenters" and neg and lit0 and after
-            det = "if(!searchcenters) return 0; evaluation only afterwards: lookup=%s negated=%s returns-literal-0=%s evaluation-after=%s" % (cal["name"] if cal else None, neg, lit0, after)
+        top = g.ch(g.body)
+        look = [i for i in top if g.k(i) == "IfStmt" and (g.nodes[core.cond_polarity(g, g.nodes[i]["cond"])[0]].get("callee") or {}).get("name") == "searchcenters"]
+        rets = [x for x in g.walk() if g.k(x) == "ReturnStmt"]
+        if len(look) == 1:
+            L = look[0]
+            c, neg = core.cond_polarity(g, g.nodes[L]["cond"])
+            tr = [x for x in g.walk(g.nodes[L]["then"]) if g.k(x) == "ReturnStmt"]
+            lit0 = len(tr) == 1 and g.nodes[g.strip(g.nodes[tr[0]]["value"])].get("cv") == 0
+            # every other return is the evaluation itself, placed after the lookup test at the top level of the body
+            others = [x for x in rets if x not in tr]
+            evalret = len(others) == 1 and g.parent[others[0]] == g.body and top.index(others[0]) > top.index(L) and \
+                (g.nodes[g.strip(g.nodes[others[0]]["value"])].get("callee") or {}).get("name") == "ndsplineeval"
+            # nothing between entry and the lookup test can leave the function or evaluate
+            before = [x for k in top[:top.index(L)] for x in g.walk(k) if g.k(x) in ("ReturnStmt", "CXXThrowExpr") or (g.nodes[x].get("callee") or {}).get("name", "").startswith("ndsplineeval")]
+            ok = neg and lit0 and evalret and not before
+            det = "if(!searchcenters(...)) return 0; then return ndsplineeval(...): negated=%s returns-literal-0=%s single-evaluation-return-after=%s exits-or-evaluation-before-the-lookup=%d (returns in function: %d)" % (
+                neg, lit0, evalret, len(before), len(rets))
+        elif len(look) == 0:
+            det = "the lookup result does not guard the evaluation (no top-level `if(!searchcenters(...))`); returns in function: %d" % len(rets)
         C.ob("SC-3", nm, "zero-on-failure", ok, g.where(), det)
 
 
